@@ -432,6 +432,9 @@ def c05(res: CheckResult) -> None:
     res.samples += vectors[1000:1003]
     res.coverage_extra["exhaustive"] = True
     res.add_unit("signatures x call shapes", max_params=mp, max_positionals=mpos, **stats)
+    rng = random.Random(res.seed)
+    call_unit(res, "overlapping calls of one callable with different arguments (recursion): every call's contracts see ITS "
+                   "arguments", list(F.fam_rec_args(res.tier, rng)) + list(F.fam_snap_rec(res.tier, rng)), ic)
 
 
 # ---- violation messages ----------------------------------------------------------------------------------
